@@ -241,13 +241,26 @@ def splitSteps (toks : List String) : List (List String) :=
     if t == "|" then (acc.2.reverse :: acc.1, []) else (acc.1, t :: acc.2)) ([], [])
   (r.2.reverse :: r.1).reverse
 
-def histStep (t : TState) : List String → Option TState
-  | "snap" :: toks => some (PosWriters.applyOp t (.snapshot (parseIntS (kv toks "off"))))
-  | "relabel" :: toks => some (PosWriters.applyOp t (.relabel (goneOf (kv toks "gone"))))
-  | "reset" :: toks => some (PosWriters.applyOp t (.reset (goneOf (kv toks "gone"))))
+/-- one step of a history: the new state, and the premise of `Props.C07.Hist` that the REAL
+    history violated, if any (`hnone`: a snapshot offset is stored only when no position is read;
+    `AscGone`: a reset has deleted in ascending order of the offsets; `hx`/`hd`: a life starts at
+    the position read, in the database it was read in) -/
+def histStep (t : TState) : List String → Option (TState × String)
+  | "snap" :: toks =>
+    let bad := if PosWriters.readPos t < 0 then "" else " premise-false=hnone"
+    some (PosWriters.applyOp t (.snapshot (parseIntS (kv toks "off"))), bad)
+  | "relabel" :: toks => some (PosWriters.applyOp t (.relabel (goneOf (kv toks "gone"))), "")
+  | "reset" :: toks =>
+    let gone := goneOf (kv toks "gone")
+    let bad := if PosWriters.ascGoneB t.cps gone then "" else " premise-false=AscGone"
+    some (PosWriters.applyOp t (.reset gone), bad)
   | "life" :: toks =>
     let c := mkCase toks
-    some (PosWriters.applyOp t (.life c.sc c.evs (kv toks "k").toNat!))
+    let start := parseIntS (kv toks "start")
+    let sdb := parseIntS (kv toks "sdb")
+    let bad := if PosWriters.readPos t == start && 0 ≤ start && PosWriters.readDbs t == [sdb] && 0 ≤ sdb
+               then "" else " premise-false=life-starts-at-position"
+    some (PosWriters.applyOp t (.life c.sc c.evs (kv toks "k").toNat!), bad)
   | _ => none
 
 def handle : List String → Option (List String)
@@ -258,7 +271,7 @@ def handle : List String → Option (List String)
       let tag := "#" ++ kv hd "tag"
       let r := steps.foldl (fun (acc : TState × Nat × List String) st =>
         match histStep acc.1 st with
-        | some t' => (t', acc.2.1 + 1, showPos tag acc.2.1 t' :: acc.2.2)
+        | some (t', bad) => (t', acc.2.1 + 1, (showPos tag acc.2.1 t' ++ bad) :: acc.2.2)
         | none => (acc.1, acc.2.1 + 1, s!"{tag} pos i={acc.2.1} bad-step" :: acc.2.2)) (({} : TState), 0, [])
       some (r.2.2.reverse ++ [s!"{tag} end"])
   | "send" :: toks =>
